@@ -63,10 +63,16 @@ type hResult struct {
 // spread by pid across processes; each is bound once to make sure nobody holds it now.
 var addrCounter atomic.Int64
 
+// portSalt differs per process and per start: two harness processes running at once (parallel checks, sweeps) walk
+// different sequences of ports instead of the same lattice
+var portSalt = uint64(os.Getpid())*2654435761 + uint64(time.Now().UnixNano())
+
 func freeAddr() string {
 	for tries := 0; tries < 4000; tries++ {
-		n := addrCounter.Add(1)
-		port := 12000 + (int(n)*7+os.Getpid()*131)%19000
+		n := uint64(addrCounter.Add(1))
+		x := (n + portSalt) * 0x9E3779B97F4A7C15
+		x ^= x >> 29
+		port := 12000 + int(x%19000)
 		l, err := net.Listen("tcp", fmt.Sprintf("127.0.0.1:%d", port))
 		if err != nil {
 			continue
